@@ -139,6 +139,15 @@ impl<K: SparseIndex, V> SparseMap<K, V> {
     }
 }
 
+// Verification hooks. Compiled only with `--cfg evenio_verif`.
+#[cfg(evenio_verif)]
+impl<K: SparseIndex, V> SparseMap<K, V> {
+    /// The `sparse` array as indices (`K::MAX.index()` marks a vacant entry).
+    pub(crate) fn verif_sparse(&self) -> Vec<usize> {
+        self.sparse.iter().map(|k| k.index()).collect()
+    }
+}
+
 #[cfg(test)]
 mod tests {
     use alloc::collections::BTreeSet;
